@@ -17,6 +17,9 @@ classifies the recorded history (`sem.check`): a mismatch on a history in which 
 (`start_task(first_run=False)` for a task that has meanwhile failed) was delivered is reported as a
 violation with the signature of that (fixed) defect - the regression of repo_patches/20 -, any other
 mismatch as a disagreement.  The number of histories that exercise the fixed path is counted.
+Monitor of the multiset reading (NOT a theorem): at quiescence, in a definition of the single-activation class
+(`singleActB` / `singleActWideB` of Model/Sem.lean, evaluated by the driver) every task has exactly one execution; in the
+wide-but-not-strict class a hit is the known finding `failed-join-reopened-by-late-branch`, in the strict class a violation.
 corpus/C02/*.json: former counter-witnesses (model event lists) replayed on the real engine; they must
 agree with the model after every event and with the semantics at the end.
 """
@@ -33,7 +36,7 @@ from harness import live_stream as ls
 from harness import wfgen
 
 SIG_STALE = {'kind': 'sem-mismatch', 'cause': 'stale-restart-of-failed-task'}
-SIG_UNCLEAN = {'kind': 'sem-mismatch', 'cause': 'reopened-join-completed-while-paused'}
+SIG_TWICE = {'kind': 'task-executed-twice', 'cause': 'failed-join-reopened-by-late-branch'}
 
 
 def failing_of(prog, table):
@@ -195,6 +198,25 @@ def compare(ctx, drv, case, prog, failing, r):
             what = 'C02 sem: quiescent real outcome differs from the declarative semantics: real %s %s, semantics %s %s' % (
                 final['wf'], real_outcome(final)[1], sem['verdict'], sem_outcome(sem)[1])
         ctx.count('sem', 'quiescent')
+        # the multiset reading (monitor, not a theorem): in the single-activation class every task is executed once
+        names = [t[0].split('#')[0] for t in final['tasks']]
+        twice = sorted(set(n for n in names if names.count(n) > 1))
+        if chk.get('singleAct'):
+            ctx.count('sem', 'single-activation:strict')
+        elif chk.get('singleActWide'):
+            ctx.count('sem', 'single-activation:wide-only')
+        if twice and chk.get('singleAct'):
+            ctx.violation('C02 sem: task(s) %s executed more than once in a definition of the strict single-activation '
+                          'class: %s' % (twice, json.dumps(final['tasks'])[:300]),
+                          dict(case, stream='sem', events=r['events']),
+                          {'kind': 'task-executed-twice', 'class': 'single-activation-strict'})
+        elif twice and chk.get('singleActWide'):
+            ctx.count('sem', 'hit:task-executed-twice')
+            ctx.violation('C02 sem: task(s) %s executed more than once (a join that failed early was re-opened by a late '
+                          'branch): %s' % (twice, json.dumps(final['tasks'])[:300]),
+                          dict(case, stream='sem', events=r['events']), dict(SIG_TWICE))
+        elif twice:
+            ctx.count('sem', 'multi-activation:duplicates')
     else:
         ctx.count('sem', 'not-quiescent:%s' % final['wf'])
     if ok:
